@@ -123,6 +123,44 @@ def o192(ctx):
         ctx.count(1)
         if "geom4" not in w:
             ctx.finding(q, fn, f"{label}: the link distance must be recorded on the particle the chain is appended to", fn, m)
+        if cut:
+            # the tail that is cut off starts *after* the particle the new chain is appended to: order > that particle's order (strict)
+            relabel = [e for e in it.events if e.kind == "store" and e.extra.get("frame") is traced and e.extra.get("mask") is not None
+                       and "object_id" in tm.show(to_term(e.args[1]))]
+            ctx.count(1)
+            if not relabel:
+                raise Unsupported("tail relabelling store of add_chain_suffix not recognised", fn)
+            mk_ = relabel[0].extra["mask"]
+            cmps = [n for n in tm.walk(mk_) if n.op in ("lt", "le") and any(tm.has_sym(a, "tr:geom2") for a in n.args)
+                    and tm.contains(n, lambda x: x.op == "call" and str(x.args[0]) == "rowelem")]
+            strict = [n for n in cmps if n.op == "lt" and n.args[1] == sym("tr:geom2")]
+            if not strict or len(cmps) != len(strict):
+                ctx.finding(q, relabel[0].node, "the cut-off tail must hold the particles whose order number is greater than that of the particle the new "
+                            "chain is appended to (strictly): with >= that particle itself moves into the tail, the chain is attached to its "
+                            "predecessor and its own link distance is overwritten", relabel[0].node, m, mask=tm.show(mk_)[:200])
+
+
+def o194(ctx):
+    """add_chain_prefix: whenever the chain is merged (no early return), the link distance is recorded on the new chain's last particle"""
+    q = RB + "add_chain_prefix"
+    m, fn = ctx.prog.func(q)
+    ctx.touched(q)
+    for cm_none in (True, False):
+        for first in (True, False):
+            it = Interp(ctx.prog, assume=assume_map({"class_max is None": cm_none, "order_id != 1": not first, "previous_dist <= current_dist": False}))
+            chain, traced = opf("chain_df", "ch:"), opf("traced_df", "tr:")
+            motl = Obj("cryomotl.Motl", {"df": opf("mdf", "m:")})
+            cmax = K(None) if cm_none else Seq([P("cmax0"), P("cmax1")], "list")
+            try:
+                it.run(q, [chain, motl, traced, P("subtomo_pos"), P("current_dist")], {"class_max": cmax})
+            except Unsupported:
+                raise
+            label = f"{'only a prefix' if cm_none else 'suffix and prefix'}, closest particle {'is' if first else 'is not'} the first of its chain"
+            dist = chain.cols.get("geom4")
+            ctx.count(1, {"path": label, "distance stored on the new chain": tm.show(dist)[:80] if dist is not None else None})
+            if "geom4" not in chain.written or dist is None or not tm.has_sym(dist, "current_dist"):
+                ctx.finding(q, label, f"{label}: the distance of the new link must be recorded on the last particle of the chain that is put in "
+                            "front (on every merging path)", fn, m)
 
 
 def block_of(mod, node):
@@ -323,6 +361,7 @@ def _obligations():
     return [
         Obligation("O19.1", "get_nn_dist: radius = max_distance, sorted, active filter, strict > min_distance, same masks, element 0", o191, floor=5),
         Obligation("O19.2", "add_chain_suffix: order offset keyed by the class the appended chain receives (both paths)", o192, floor=6),
+        Obligation("O19.4", "add_chain_prefix: the link distance is recorded on every merging path", o194, floor=4),
         Obligation("O19.3", "trace_chains: per-tomogram state, flags cleared on append, guards, counter discipline, forward search wiring", o193, floor=12),
     ]
 
